@@ -200,20 +200,40 @@ def cmake_real(args: T.Tuple[T.List[Cmd], T.List[str], T.List[str], str, T.List[
     return out
 
 
+def _prefix_text(text: str, fmt: str, k: int, n: int) -> str:
+    """The part of a real trace produced by the first k generated commands (they are lines 3..n+2 of the project file)."""
+    if k >= n:
+        return text
+    lines = text.splitlines(keepends=True)
+    nxt = k + 3         # line number of command k+1
+    for i, l in enumerate(lines):
+        if fmt == 'json':
+            if '/src/CMakeLists.txt"' in l and f'"line":{nxt},' in l:
+                return ''.join(lines[:i])
+        elif f'/src/CMakeLists.txt({nxt}):' in l:
+            return ''.join(lines[:i])
+    raise common.MachineryError(f'cannot find command {k + 1} in the real {fmt} trace')
+
+
 def run_real_case(c: T.Dict[str, T.Any]) -> T.Dict[str, T.Any]:
-    """Worker body for (B-real): cmake writes the trace, the real parser reads it."""
+    """Worker body for (B-real): cmake writes the trace, the real parser reads it (after every generated command)."""
     common.use_repo_meson()
     r = cmake_real((c['cmds'], c['vn'], c['pn'], c['tmp'], c['fmts']))
-    created = {x['args'][0][0] for x in c['cmds'] if x['cmd'] in ('add_library', 'add_executable', 'add_custom_target')}
+    n = len(c['cmds'])
     res = []
     for fmt in c['fmts']:
-        tp, x = call_guarded(lambda: parse_real(r[fmt], fmt), 30.0)
-        if x:
-            o = {'k': len(c['cmds']), 'x': x, 'vars': [], 'tg': [], 'errs': 0}
-        else:
-            o = project(tp, c['vn'], only=created)
-            o['k'] = len(c['cmds'])
-        res.append({'id': f"{c['id']}:{fmt}", 'fmt': fmt + '-real', 'cmds': c['cmds'], 'obs': [o], 'w': [r['w']]})
+        obs = []
+        for k in range(1, n + 1):
+            created = {x['args'][0][0] for x in c['cmds'][:k] if x['cmd'] in ('add_library', 'add_executable', 'add_custom_target')}
+            text = _prefix_text(r[fmt], fmt, k, n)
+            tp, x = call_guarded(lambda: parse_real(text, fmt), 30.0)
+            if x:
+                o = {'k': k, 'x': x, 'vars': [], 'tg': [], 'errs': 0}
+            else:
+                o = project(tp, c['vn'], only=created)
+                o['k'] = k
+            obs.append(o)
+        res.append({'id': f"{c['id']}:{fmt}", 'fmt': fmt + '-real', 'cmds': c['cmds'], 'obs': obs, 'w': [r['w']]})
     return {'cases': res}
 
 
@@ -345,11 +365,15 @@ class SeqGen:
         chosen = r.sample(ts, min(len(ts), r.choice([1, 1, 1, 2])))
         args: T.List[T.Any] = ['TARGET'] + chosen
         k = r.random()
+        names = ['P', 'Q', 'R_X', 'INTERFACE_LINK_LIBRARIES', 'INTERFACE_COMPILE_DEFINITIONS', 'IMPORTED_LOCATION']
         if k < 0.35:
             args.append('APPEND')
         elif k < 0.45:
+            # cmake keeps its built-in usage-requirement properties as entry lists and appends an entry even for
+            # APPEND_STRING, unlike what the manual says for properties in general: only user properties here
             args.append('APPEND_STRING')
-        args += ['PROPERTY', r.choice(['P', 'Q', 'R_X', 'INTERFACE_LINK_LIBRARIES', 'INTERFACE_COMPILE_DEFINITIONS', 'IMPORTED_LOCATION'])]
+            names = ['P', 'Q', 'R_X']
+        args += ['PROPERTY', r.choice(names)]
         if r.random() > 0.08:
             args += self.values('p')
         self.cmds.append(C('set_property', *args))
@@ -374,16 +398,19 @@ class SeqGen:
         args: T.List[T.Any] = [t]
         pre = '/inc' if cmd == 'target_include_directories' else {'target_compile_definitions': 'DEF', 'target_compile_options': '-fo',
                                                                   'target_link_options': '-Wl', 'target_link_libraries': 'lib'}[cmd]
+        before = False
         if cmd == 'target_include_directories':
             if r.random() < 0.25:
                 args.append('SYSTEM')
             k = r.random()
             if k < 0.25:
                 args.append('BEFORE')
+                before = True
             elif k < 0.4:
                 args.append('AFTER')
         elif cmd in ('target_compile_options', 'target_link_options') and r.random() < 0.3:
             args.append('BEFORE')
+            before = True
         if cmd == 'target_link_libraries' and full and self.style.get(t) != 'kw' and r.random() < 0.3:
             # plain / legacy signatures (cmake refuses to mix them with the keyword signature on one target)
             self.style[t] = 'plain'
@@ -398,7 +425,9 @@ class SeqGen:
             if self.style.get(t) == 'plain':
                 return
             self.style[t] = 'kw'
-        for _ in range(r.randint(1, 3)):
+        # "BEFORE: the content will be prepended" - the manual does not say how several keyword groups are ordered
+        # among themselves when prepended, so a prepending command has one group
+        for _ in range(1 if before else r.randint(1, 3)):
             args.append(r.choice(['PUBLIC', 'PRIVATE', 'INTERFACE']) if full else 'INTERFACE')
             args += [self.lst(pre) for _ in range(r.randint(0 if len(args) > 3 else 1, 2))]
         self.cmds.append(C(cmd, *args))
